@@ -286,12 +286,20 @@ Lemma pop_unknown s id :
   step s (OPop id) = emit (EExc EX_KEY) s.
 Proof. intros Hc Hg. cbn [step]. rewrite Hc, Hg. reflexivity. Qed.
 
+(** [send_bundle_data] once the session is terminating: refused with
+    RuntimeError, nothing is queued (the state is otherwise unchanged). *)
+Lemma send_terminating s d :
+  closed s = false -> in_term s = true ->
+  step s (OSend d) = emit (EExc EX_RUNTIME) s.
+Proof. intros Hc Ht. cbn [step]. rewrite Hc, Ht. reflexivity. Qed.
+
 (** Events a user operation [o] may add in state [s]: anything but an
-    exception, except in exactly the two documented error cases. *)
+    exception, except in exactly the three documented error cases. *)
 Definition user_ev (s : ep) (o : op) (e : event) : Prop :=
   noexc e
   \/ (e = EExc EX_RUNTIME /\ exists r, o = OTerm r /\ closed s = false /\ in_sess s = true /\ in_term s = true)
-  \/ (e = EExc EX_KEY /\ exists id, o = OPop id /\ closed s = false /\ dict_get id (rx_map s) = None).
+  \/ (e = EExc EX_KEY /\ exists id, o = OPop id /\ closed s = false /\ dict_get id (rx_map s) = None)
+  \/ (e = EExc EX_RUNTIME /\ exists d, o = OSend d /\ closed s = false /\ in_term s = true).
 
 Ltac user_leaf := unfold ext_by; ep_cbn; repeat brk_any; ext_close ltac:(first [left; reflexivity | left; apply noexc_flush]).
 
@@ -299,7 +307,12 @@ Lemma step_user_events s o : non_user o = false -> ext_by (user_ev s o) s (step 
 Proof.
   intros Hn. destruct o; try discriminate Hn.
   - cbn [step]. brk. all: user_leaf.
-  - cbn [step]. brk. all: user_leaf.
+  - (* OSend *)
+    destruct (closed s) eqn:Hc; [cbn [step]; rewrite Hc; apply ext_refl|].
+    destruct (in_term s) eqn:Ht.
+    + rewrite send_terminating by assumption. exists [EExc EX_RUNTIME]. split; [reflexivity|].
+      constructor; [|constructor]. right; right; right. split; [reflexivity|]. exists data. auto.
+    + cbn [step]. rewrite Hc, Ht. brk. user_leaf.
   - (* OTerm *)
     destruct (closed s) eqn:Hc; [cbn [step]; rewrite Hc; apply ext_refl|].
     destruct (in_sess s) eqn:Hs.
@@ -314,7 +327,7 @@ Proof.
     destruct (dict_get id (rx_map s)) as [d|] eqn:Hg.
     + cbn [step]. rewrite Hc, Hg. user_leaf.
     + rewrite pop_unknown by assumption. exists [EExc EX_KEY]. split; [reflexivity|].
-      constructor; [|constructor]. right; right. split; [reflexivity|]. exists id. auto.
+      constructor; [|constructor]. right; right; left. split; [reflexivity|]. exists id. auto.
 Qed.
 
 (** ** The whole run *)
@@ -342,11 +355,13 @@ Proof. rewrite app_comm_cons. apply run_snoc. Qed.
 
 (** Every exception event of a run that starts with [start()] and parses only
     decodable node ids was returned to a D-Bus caller: RuntimeError by a
-    [terminate()] and KeyError by a [recv_bundle_pop_data()]. *)
+    [terminate()] or a [send_bundle_data()] (both: session already terminating)
+    and KeyError by a [recv_bundle_pop_data()]. *)
 Theorem exc_only_user : forall c ops,
   Forall sessinit_ascii (handled (run c (OStart :: ops))) ->
   forall k, In (EExc k) (trace (run c (OStart :: ops))) ->
-    (k = EX_RUNTIME /\ exists r, In (OTerm r) ops) \/ (k = EX_KEY /\ exists id, In (OPop id) ops).
+    (k = EX_RUNTIME /\ ((exists r, In (OTerm r) ops) \/ (exists d, In (OSend d) ops)))
+    \/ (k = EX_KEY /\ exists id, In (OPop id) ops).
 Proof.
   intros c ops. induction ops as [|o ops IH] using rev_ind; intros Hh k Hin.
   - exfalso. revert Hin. unfold run. cbn [fold_left]. unfold init. cbn [step closed]. brk.
@@ -362,14 +377,16 @@ Proof.
         eapply ext_mono; [|exact He]. intros e He'. left. exact He'.
       - apply step_user_events, Hn. }
     destruct Hext as [evs [E F]]. rewrite E in Hin. apply in_app_or in Hin. destruct Hin as [Hin|Hin].
-    + destruct (IH Hh0 k Hin) as [[-> [r Hr]]|[-> [id Hi]]].
-      * left. split; [reflexivity|]. exists r. apply in_or_app. left. exact Hr.
+    + destruct (IH Hh0 k Hin) as [[-> [[r Hr]|[d Hd]]]|[-> [id Hi]]].
+      * left. split; [reflexivity|]. left. exists r. apply in_or_app. left. exact Hr.
+      * left. split; [reflexivity|]. right. exists d. apply in_or_app. left. exact Hd.
       * right. split; [reflexivity|]. exists id. apply in_or_app. left. exact Hi.
     + rewrite Forall_forall in F. specialize (F _ Hin).
-      destruct F as [F|[[F [r [-> _]]]|[F [id [-> _]]]]].
+      destruct F as [F|[[F [r [-> _]]]|[[F [id [-> _]]]|[F [d [-> _]]]]]].
       * discriminate F.
-      * injection F as ->. left. split; [reflexivity|]. exists r. apply in_or_app. right. left. reflexivity.
+      * injection F as ->. left. split; [reflexivity|]. left. exists r. apply in_or_app. right. left. reflexivity.
       * injection F as ->. right. split; [reflexivity|]. exists id. apply in_or_app. right. left. reflexivity.
+      * injection F as ->. left. split; [reflexivity|]. right. exists d. apply in_or_app. right. left. reflexivity.
 Qed.
 
 (** ** 17b: every rejected message is answered by exactly one MSG_REJECT *)
